@@ -293,10 +293,21 @@ func kindsFor(backend string) []string {
 	if isHTTP(backend) {
 		return []string{"httpstatus", "malformed", "errtext", "close", "silence"}
 	}
-	return []string{"errtext", "unexpected", "garbled", "close", "warntext", "silence", "truncated"}
+	return []string{"errtext", "unexpected", "garbled", "close", "warntext", "silence", "truncated", "question"}
 }
 
-func slowKind(k string) bool { return k == "silence" || k == "truncated" }
+// question: the device answers a command with an interactive question instead of its prompt (the
+// ASA anonymous-reporting notice on the first `configure terminal`, a `[confirm]`, a `--More--`
+// pager; sim.go).  The unchanged code knows none of them and gives up after its time-out, the
+// device untouched — for the session model that device is silent from there on.
+func modelKind(k string) string {
+	if k == "question" {
+		return "silence"
+	}
+	return k
+}
+
+func slowKind(k string) bool { return k == "silence" || k == "truncated" || k == "question" }
 
 // ---------------------------------------------------------------- main run
 
@@ -379,7 +390,10 @@ func run(ctx *Ctx) *Result {
 				if pos == 0 && (k == "errtext" || k == "garbled" || k == "warntext") {
 					continue
 				}
-				if slowKind(k) && !ctx.Thorough() && (pos+i+ki)%3 != 0 {
+				// a question at the step that enters configuration mode: always (the one place where a
+				// compare session is inside configuration mode, and where real devices do ask)
+				confStep := k == "question" && pos >= 1 && pos <= len(blOut[i].Lines) && blOut[i].Lines[pos-1] == "configure terminal"
+				if slowKind(k) && !ctx.Thorough() && (pos+i+ki)%3 != 0 && !confStep {
 					continue // a timeout costs 1-3 s: every third position in the quick tier
 				}
 				cases = append(cases, CaseIn{Scen: s, Tool: tools[(pos+ki+i)%len(tools)], FaultPos: pos, FaultKind: k})
@@ -452,7 +466,7 @@ func envClass(c CaseIn, o CaseOut) string {
 	}
 	for _, m := range []string{"timer expired", "client.timeout exceeded", "i/o timeout", "deadline exceeded", "handshake timeout"} {
 		if strings.Contains(all, m) {
-			silenced := (c.FaultKind == "silence" || c.FaultKind == "truncated") && o.FaultAt >= 0
+			silenced := (c.FaultKind == "silence" || c.FaultKind == "truncated" || c.FaultKind == "question") && o.FaultAt >= 0
 			if !silenced {
 				return "timeout_without_injected_silence"
 			}
@@ -690,7 +704,7 @@ func evalCases(ctx *Ctx, res *Result, drv *Nadrv, cases []CaseIn, nw int, verbos
 		if c.FaultPos >= 0 {
 			fp = strconv.Itoa(c.FaultPos)
 		}
-		kind := c.FaultKind
+		kind := modelKind(c.FaultKind)
 		if kind == "" {
 			kind = "-"
 		}
